@@ -165,7 +165,8 @@ Theorem C08_send_path_clauses_as_modelled : send_path_clauses = [
   ("SubscriptionsManagerBase._send_notification_report", "NotConnected", false, false, false);
   ("SubscriptionsManagerBase._send_notification_report", "TimeoutError", false, false, false);
   ("SubscriptionsManagerBase._send_notification_report", "DocumentInvalid", false, false, true);
-  ("SubscriptionsManagerBase._send_notification_report", "Exception", false, false, false);
+  ("SubscriptionsManagerBase._send_notification_report", "XMLSyntaxError", false, false, false);
+  ("SubscriptionsManagerBase._send_notification_report", "Exception", false, false, true);
   ("SubscriptionBase.send_notification_end_message", "Exception", false, false, false);
   ("BicepsSubscriptionAsync.async_send_notification_report", "HTTPReturnCodeError", true, false, true);
   ("BicepsSubscriptionAsync.async_send_notification_report", "TimeoutError", true, true, true);
@@ -182,8 +183,10 @@ Proof. reflexivity. Qed.
 Print Assumptions C08_send_path_clauses_as_modelled.
 
 (* whatever the table looks like: every except clause of the two functions that count delivery failures
-   counts one, and the last clause of each catches every exception; no clause of the sync manager's
-   per-receiver wrapper but the one for an invalid report document ends the fan-out *)
+   counts one, and the last clause of each catches every exception; the sync manager's per-receiver wrapper
+   goes on with the next receiver after what one SUBSCRIBER can cause (refused / not connected / time-out /
+   HTTP error status / an answer that is not XML) and ends the fan-out, passing the exception to the sending
+   thread, for what is wrong with the REPORT (invalid document) or unknown (final catch-all) *)
 Definition counting_fn (f : string) : bool :=
   String.eqb f "BicepsSubscription.send_notification_report" ||
   String.eqb f "BicepsSubscriptionAsync.async_send_notification_report".
@@ -196,8 +199,13 @@ Theorem C08_every_send_path_clause_counts :
                     end)
           ["BicepsSubscription.send_notification_report"; "BicepsSubscriptionAsync.async_send_notification_report"]%string = true /\
   forallb (fun cl => let '(f, e, _, _, reraises) := cl in
-                     implb (String.eqb f "SubscriptionsManagerBase._send_notification_report" && reraises)
-                           (String.eqb e "DocumentInvalid")) send_path_clauses = true.
+                     implb (String.eqb f "SubscriptionsManagerBase._send_notification_report")
+                           (Bool.eqb reraises (String.eqb e "DocumentInvalid" || String.eqb e "Exception")))
+          send_path_clauses = true /\
+  forallb (fun e => existsb (fun cl => let '(f, e', _, _, reraises) := cl in
+                                       String.eqb f "SubscriptionsManagerBase._send_notification_report" &&
+                                       String.eqb e' e && negb reraises) send_path_clauses)
+          ["ConnectionRefusedError"; "HTTPReturnCodeError"; "NotConnected"; "TimeoutError"; "XMLSyntaxError"]%string = true.
 Proof. vm_compute. repeat split; reflexivity. Qed.
 Print Assumptions C08_every_send_path_clause_counts.
 
